@@ -172,7 +172,8 @@ def run_property(pid, tier="quick", seed=0, update=False):
     known = load_json(os.path.join(ROOT, "known_findings.json"), {"findings": []})
     exit_code = 0
     search_result = None
-    need_search = bool(alarm_failed or scaffold or support_failed)
+    # an undecided unit (lost anchor, unsupported construct after an edit) is also a reason to look for a failing input on the real code
+    need_search = bool(alarm_failed or scaffold or support_failed or undecided)
     always = spec.get("always_search", False) or tier == "thorough"
     if (need_search or always) and spec.get("search"):
         search_result = overlay.run_search(spec.get("search_pid", pid), seed, tier, full=need_search)
